@@ -478,7 +478,33 @@ def keep_unknown(rep, split=False):
                                 bad = True
                 if bad:
                     union_unknown.append(ti.label)
+    # which structs may carry the whole-buffer shortcut at all: only those that are directly the type of a method parameter
+    direct = set()
+    for fname, F in files.items():
+        for FF in [F] + list(F.includes.values()):
+            pass
+        for d in F.decls.values():
+            if d.kind == 'service':
+                for me in d.methods:
+                    for a in me.args:
+                        k_, dd, rt, ff = F.resolve(a.ty)
+                        if k_ in ('struct', 'exception') and dd is not None:
+                            direct.add((fname, norm(dd.name)))
+    extra = []
+    for kind, lst in list(none_sites.items()):
+        keep = []
+        for lab in lst:
+            m = re.match(r'k_(t_\w+?)::(\w+)$', lab)
+            if kind == 'struct used as argument' and m and (m.group(1), norm(m.group(2))) not in direct:
+                extra.append(lab)
+            else:
+                keep.append(lab)
+        none_sites[kind] = keep
+    for lab in sorted(set(extra)):
+        rep.bad('G13.c', 'G13.c|%s|whole-buffer shortcut on a type that is not a direct method argument' % lab, '', 'keep-mode decoder of %s uses get_bytes(None, remaining - 2) although %s never is the whole argument buffer (it only occurs nested / inside containers): every following element is swallowed into its _unknown_fields' % (lab, lab))
     for kind, lst in sorted(none_sites.items()):
+        if not lst:
+            continue
         key = 'G13.c|generated|get_bytes(None, remaining - 2)|%s' % kind
         rep.bad('G13.c', key, '', 'keep-mode decoders of %s types swallow "the rest of the buffer minus two bytes" (get_bytes(None, remaining - 2)) once every known field was seen: wrong whenever the value is not the last thing in the buffer (nested struct, list element, argument wrapper), and remaining - 2 underflows on short input (%d types, e.g. %s)' % (kind, len(set(lst)), sorted(set(lst))[:4]))
     if union_unknown:
